@@ -18,6 +18,7 @@ import (
 	"runtime"
 	"runtime/debug"
 	"runtime/pprof"
+	"sort"
 	"strings"
 	"testing"
 	"time"
@@ -486,6 +487,103 @@ func sites(d *tgen.TypeDesc, v *thriftspec.Value, path []step, out *[]site, dept
 	}
 }
 
+// structDepth is the struct nesting depth (1 = top level) of the struct node at path.
+func structDepth(v *thriftspec.Value, path []step) int {
+	d := 0
+	if v.T == thriftspec.Struct {
+		d = 1
+	}
+	for _, s := range path {
+		switch s.kind {
+		case 'f':
+			v = &v.Fields[s.idx].V
+		case 'e':
+			v = &v.Elems[s.idx]
+		case 'k':
+			v = &v.Keys[s.idx]
+		}
+		if v.T == thriftspec.Struct {
+			d++
+		}
+	}
+	return d
+}
+
+// insertedPrefixJobs applies the truncation clause to an encoding that carries
+// an inserted undeclared field u (in a struct at nesting depth `depth`): the cut
+// exactly before the field, every cut inside it (at most 32, evenly spread),
+// the cut exactly after it, the cut that only drops the final STOP - and, for
+// every sixth insertion, every proper prefix. Each non-empty proper prefix must
+// give errors.Is(err, io.ErrUnexpectedEOF).
+func (e *engine) insertedPrefixJobs(in []byte, marks []tgen.Mark, depth int, u thriftspec.Field, ni, pos, seq int) []*job {
+	if isBinary(e.c.P) && e.known[classShortRead] {
+		e.resp.Excl[classShortRead]++ // avoided while the binary short-read defect is listed
+		return nil
+	}
+	start, end := -1, -1
+	for i, m := range marks {
+		if start < 0 {
+			if m.Kind == "field" && m.Depth == depth && m.N == int(u.ID) {
+				start = m.Off
+				_ = i
+			}
+			continue
+		}
+		if (m.Kind == "field" || m.Kind == "stop") && m.Depth == depth {
+			end = m.Off
+			break
+		}
+	}
+	if start < 0 || end < 0 {
+		panic(fmt.Sprintf("inserted field %d not found in the rendered marks", u.ID))
+	}
+	cuts := map[int]string{start: "cut before the inserted field", end: "cut after the inserted field", len(in) - 1: "cut dropping only the final STOP"}
+	stride := (end-start)/32 + 1
+	for k := start + 1; k < end; k += stride {
+		if _, ok := cuts[k]; !ok {
+			cuts[k] = "cut inside the inserted field"
+		}
+	}
+	if seq%6 == 1 {
+		st := len(in)/400 + 1
+		for k := 1; k < len(in); k += st {
+			if _, ok := cuts[k]; !ok {
+				cuts[k] = "cut"
+			}
+		}
+	}
+	var jobs []*job
+	for k := 1; k < len(in); k++ { // deterministic order
+		what, ok := cuts[k]
+		if !ok {
+			continue
+		}
+		k := k
+		p := in[:k]
+		where := "nested"
+		if depth == 1 {
+			where = "top-level"
+		}
+		mut := fmt.Sprintf("%s at %d of %d: unknown field id %d %s, position %d of %s struct node %d", what, k, len(in), u.ID, u.V.T, pos, where, ni)
+		e.label("insert-prefix." + what + "." + where)
+		if u.ID <= 0 {
+			e.label("insert-prefix.unknown-id<=0")
+		}
+		jobs = append(jobs, &job{pi: ProbeInfo{ID: fmt.Sprintf("insert-prefix:%d:%d:%d", ni, pos, k), Group: "insert-prefix", Mut: mut, N: int64(k)}, in: p, nt: true, f: func() *evid.Failure {
+			_, err := e.unmarshal(p)
+			if f := prefixFailure(k, err); f != nil {
+				return f
+			}
+			if what != "cut" && what != "cut inside the inserted field" {
+				_, err = e.decode(p, e.c.RK+k, false)
+				return prefixFailure(k, err)
+			}
+			return nil
+		}})
+	}
+	return jobs
+}
+
 func hasBoolField(v thriftspec.Value) bool {
 	switch v.T {
 	case thriftspec.Struct:
@@ -717,8 +815,10 @@ func (e *engine) target() {
 	}
 	e.runGroup(jobs)
 
-	// (4) unknown-field insertion at every field boundary of every struct node
+	// (4) unknown-field insertion at every field boundary of every struct node;
+	// (4b) the truncation family on each of these encodings (insJobs)
 	jobs = nil
+	var insJobs []*job
 	if len(c.Unknown) > 0 {
 		var nodes [][]step
 		structNodes(&tree, nil, &nodes)
@@ -733,8 +833,12 @@ func (e *engine) target() {
 				t2 := clone(tree)
 				nd := at(&t2, path)
 				nd.Fields = append(nd.Fields[:pos:pos], append([]thriftspec.Field{u}, nd.Fields[pos:]...)...)
-				in := e.render(t2)
+				in, marks2, rerr := tgen.RenderBytes(proto(c.P), t2)
+				if rerr != nil {
+					panic("render: " + rerr.Error())
+				}
 				n++
+				insJobs = append(insJobs, e.insertedPrefixJobs(in, marks2, structDepth(&tree, path), u, ni, pos, n)...)
 				mut := fmt.Sprintf("unknown field id %d %s at position %d of struct node %d (depth %d)", u.ID, u.V.T, pos, ni, len(path))
 				if u.V.T == thriftspec.Bool || hasBoolField(u.V) {
 					mut += " [bool field inside]"
@@ -753,6 +857,7 @@ func (e *engine) target() {
 		}
 	}
 	e.runGroup(jobs)
+	e.runGroup(insJobs)
 
 	// (5) trailing bytes
 	jobs = nil
@@ -964,7 +1069,7 @@ func knownClass(c *Case, pi *ProbeInfo, f *evid.Failure) string {
 			return "" // the listed defect is about counts the readers' range checks accept
 		}
 		return classAlloc
-	case pi.Group == "prefix" && (f.Class == "prefix-no-error" || f.Class == "prefix-wrong-error") && pi.N > 0 && shortReadPossible(c):
+	case (pi.Group == "prefix" || pi.Group == "insert-prefix") && (f.Class == "prefix-no-error" || f.Class == "prefix-wrong-error") && pi.N > 0 && shortReadPossible(c):
 		return classShortRead
 	case f.Class == "hostile-size-accepted" && shortReadPossible(c):
 		// a count whose elements are fixed-width reads: at the end of the input every read "succeeds"
@@ -1045,11 +1150,16 @@ func genCase(t *rapid.T, o *tgen.Opts) Case {
 	c.T, c.V = &d, &r
 	ids := map[int16]bool{}
 	allIDs(&d, ids, map[string]bool{})
+	var declared []int16
+	for id := range ids {
+		declared = append(declared, id)
+	}
+	sort.Slice(declared, func(i, j int) bool { return declared[i] < declared[j] })
 	nu := rapid.IntRange(1, 3).Draw(t, "nunknown")
 	for i := 0; i < nu; i++ {
 		var id int16
 		for try := 0; ; try++ {
-			switch rapid.IntRange(0, 5).Draw(t, "idk") {
+			switch rapid.IntRange(0, 8).Draw(t, "idk") {
 			case 0:
 				id = int16(rapid.IntRange(1, 20).Draw(t, "uid"))
 			case 1:
@@ -1057,9 +1167,17 @@ func genCase(t *rapid.T, o *tgen.Opts) Case {
 			case 2:
 				id = int16(rapid.IntRange(60, 140).Draw(t, "uid")) // around the 64/128 bitmap words
 			case 3:
-				id = int16(rapid.IntRange(1, 32767).Draw(t, "uid"))
+				id = int16(rapid.IntRange(-32768, 32767).Draw(t, "uid")) // any int16
 			case 4:
-				id = int16(rapid.SampledFrom([]int{-1, 0, -300, 32767}).Draw(t, "uid"))
+				id = 0
+			case 5:
+				id = int16(rapid.SampledFrom([]int{-1, -2, -15, -16, -300, -32768, 32767}).Draw(t, "uid"))
+			case 6, 7: // next to a declared id
+				if len(declared) > 0 {
+					id = declared[rapid.IntRange(0, len(declared)-1).Draw(t, "near")] + int16(rapid.SampledFrom([]int{-2, -1, 1, 2}).Draw(t, "delta"))
+				} else {
+					id = int16(rapid.IntRange(-2, 3).Draw(t, "uid"))
+				}
 			default:
 				id = int16(rapid.IntRange(1, 64).Draw(t, "uid"))
 			}
@@ -1129,8 +1247,11 @@ func caseLabels(c Case) {
 		}
 		for _, u := range c.Unknown {
 			evid.Label("unknown." + u.V.T.String())
-			if u.ID <= 0 {
-				evid.Label("unknown.id<=0")
+			switch {
+			case u.ID == 0:
+				evid.Label("unknown.id=0")
+			case u.ID < 0:
+				evid.Label("unknown.id<0")
 			}
 			var st thriftspec.Stats
 			st.Add(u.V, 0)
@@ -1147,7 +1268,7 @@ func TestDecode(t *testing.T) {
 	o := &tgen.Opts{Small: true, NoWideIDs: evid.KnownActive(classWideIDs)}
 	// While the allocation / short-read defects are listed every few cases cost
 	// a worker restart or a stall; on a tree without them a case takes ~0.2 ms.
-	n := 9000
+	n := 5000
 	if evid.KnownActive(classAlloc) || evid.KnownActive(classShortRead) {
 		n = 500
 	}
